@@ -704,8 +704,23 @@ func c09Stress(args []string) error {
 	if err != nil {
 		return err
 	}
+	if sg, cleanup, err := synthGroup(); err == nil {
+		defer cleanup()
+		groups = append(groups, sg)
+	} else {
+		return err
+	}
 	rnd := rand.New(rand.NewSource(*seed))
 	rnd.Shuffle(len(groups), func(i, j int) { groups[i], groups[j] = groups[j], groups[i] })
+	if *seed%2 == 1 {
+		// every other process starts with the small synthetic flow: all goroutines reach their first router test, their
+		// first context lookups etc. within microseconds of each other, in a process where nothing has been used yet
+		for i, g := range groups {
+			if strings.Contains(g.path, "c09synth") {
+				groups[0], groups[i] = groups[i], groups[0]
+			}
+		}
+	}
 	eng := fixtureEngine(0, -1) // one engine for every session, as a server has
 
 	type job struct {
@@ -825,4 +840,53 @@ func rawJoin(rs []json.RawMessage) [][]byte {
 		out[i] = r
 	}
 	return out
+}
+
+// synthGroup: assets of our own in which every session re-evaluates the same query based groups (conditions on a datetime
+// field, created_on, a number field, the name, a URN) under a different environment (date format, timezone) - what the
+// shared, parsed queries hold must not depend on who evaluated them first
+func synthGroup() (*assetsGroup, func(), error) {
+	gu := func(i int) string { return fmt.Sprintf("1e1ce1e1-9288-4504-869e-0990000000%02d", i) }
+	groups := []M{}
+	for i, q := range []string{`joined > 2020-02-01`, `joined < 2021-04-03`, `created_on > 2017-06-05`, `joined = 2020-01-02`, `age > 10`, `name ~ "bob"`, `tel != "+12065550002"`, `last_seen_on < 2030-08-07`,
+		`joined > 01-02-2020`, `created_on < 05-06-2017`} {
+		groups = append(groups, M{"uuid": gu(i), "name": fmt.Sprintf("Q%d", i), "query": q})
+	}
+	act := func(i int, m M) M { m["uuid"] = actionUUID(9, 1, i); return m }
+	flow := M{"uuid": flowUUID(9), "name": "Regroup", "spec_version": "13.6.0", "language": "eng", "type": "messaging", "nodes": []M{
+		{"uuid": nodeUUID(9, 1), "actions": []M{
+			act(1, M{"type": "set_contact_field", "field": M{"key": "joined", "name": "Joined"}, "value": "02-01-2020"}),
+			act(2, M{"type": "set_contact_field", "field": M{"key": "age", "name": "Age"}, "value": "33"}),
+			act(3, M{"type": "set_contact_name", "name": "Bobby"}),
+			act(4, M{"type": "send_msg", "text": "@(json(foreach(contact.groups, (g) => g.name))) @fields.joined @(json(trigger.params)) @(count(trigger.params)) @(has_text(\"\")) @(json(object())) @(json(array()))"})},
+			"router": M{"type": "switch", "operand": "@input.text", "wait": M{"type": "msg"}, "default_category_uuid": catUUID(9, 1, 1),
+				"cases":      []M{{"uuid": caseUUID(9, 1, 1), "type": "has_any_word", "arguments": []string{"zzz"}, "category_uuid": catUUID(9, 1, 1)}, {"uuid": caseUUID(9, 1, 2), "type": "has_number_gt", "arguments": []string{"5"}, "category_uuid": catUUID(9, 1, 1)}},
+				"categories": []M{{"uuid": catUUID(9, 1, 1), "name": "All", "exit_uuid": exitUUID(9, 1, 1)}}},
+			"exits": []M{{"uuid": exitUUID(9, 1, 1), "destination_uuid": nodeUUID(9, 2)}}},
+		{"uuid": nodeUUID(9, 2), "actions": []M{
+			{"uuid": actionUUID(9, 2, 1), "type": "set_contact_field", "field": M{"key": "joined", "name": "Joined"}, "value": "03-04-2022"},
+			{"uuid": actionUUID(9, 2, 2), "type": "send_msg", "text": "@(json(foreach(contact.groups, (g) => g.name)))"}}, "exits": exitsFor(9, 2, 0)}}}
+	a := M{"flows": []M{flow}, "groups": groups,
+		"fields":   []M{{"uuid": "f1b5aea6-6586-41c7-9020-1a6326cc6571", "key": "joined", "name": "Joined", "type": "datetime"}, {"uuid": "f1b5aea6-6586-41c7-9020-1a6326cc6572", "key": "age", "name": "Age", "type": "number"}},
+		"channels": []M{{"uuid": chanA, "name": "A", "address": "+17036975131", "schemes": []string{"tel"}, "roles": []string{"send", "receive"}, "country": "US"}}}
+	f, err := os.CreateTemp("", "c09synth*.json")
+	if err != nil {
+		return nil, nil, err
+	}
+	data := mustJSON(a)
+	f.Write(data)
+	f.Close()
+	g := &assetsGroup{path: f.Name(), data: data, flowUUIDs: []assets.FlowUUID{assets.FlowUUID(flowUUID(9))}, flowNames: []string{"Regroup"}}
+	for i, env := range []M{
+		{"date_format": "DD-MM-YYYY", "time_format": "tt:mm", "timezone": "UTC", "allowed_languages": []string{"eng"}},
+		{"date_format": "MM-DD-YYYY", "time_format": "tt:mm", "timezone": "America/Guayaquil", "allowed_languages": []string{"eng"}},
+		{"date_format": "YYYY-MM-DD", "time_format": "tt:mm", "timezone": "Pacific/Kiritimati", "allowed_languages": []string{"eng"}}} {
+		c := contactJSON()
+		c["created_on"] = "2017-06-05T23:30:00Z"
+		c["urns"] = []string{"tel:+12065550001", "tel:+12065550002"}
+		trig := mustJSON(M{"type": "manual", "flow": M{"uuid": flowUUID(9), "name": "Regroup"}, "contact": c, "environment": env, "triggered_on": "2018-07-06T12:00:00Z"})
+		res := json.RawMessage(resumeJSON("msg", "hello", 1))
+		g.fixtures = append(g.fixtures, &fixture{name: fmt.Sprintf("synth.env%d", i), assetsPath: f.Name(), test: &fixtureTest{Trigger: trig, Resumes: []json.RawMessage{res}}})
+	}
+	return g, func() { os.Remove(f.Name()) }, nil
 }
